@@ -14,7 +14,7 @@
 //
 // Anything outside the subset is an error: the check then reports that the tie is broken (DESIGN.md 3a).
 //
-// usage: go2lean <repo> <targets.json> <out.lean> <report.json>
+// usage: go2lean <repo> <targets.json> <lean/Gengo/Gen> <report.json>   (writes Code/<group>.lean and Code.lean)
 package main
 
 import (
@@ -27,6 +27,7 @@ import (
 	"go/token"
 	"go/types"
 	"os"
+	"path/filepath"
 	"sort"
 	"strings"
 
@@ -37,6 +38,7 @@ type target struct {
 	Pkg         string            `json:"pkg"`
 	Func        string            `json:"func"` // "Name" or "Recv.Name"
 	Lean        string            `json:"lean"`
+	Group       string            `json:"group"` // the translated function goes to lean/Gengo/Gen/Code/<group>.lean: a function that leaves the subset takes down its own group only
 	DropParams  []string          `json:"drop_params"`
 	ExtraParams []string          `json:"extra_params"` // Lean binders, e.g. "(gName : Str)"
 	ExtraArgs   []string          `json:"extra_args"`   // the names of those binders, passed on to loops and callees
@@ -1699,7 +1701,7 @@ func findDecl(p *packages.Package, name string) *ast.FuncDecl {
 
 func main() {
 	if len(os.Args) != 5 {
-		fmt.Fprintln(os.Stderr, "usage: go2lean <repo> <targets.json> <out.lean> <report.json>")
+		fmt.Fprintln(os.Stderr, "usage: go2lean <repo> <targets.json> <lean/Gengo/Gen> <report.json>")
 		os.Exit(2)
 	}
 	repoRoot = os.Args[1]
@@ -1748,12 +1750,23 @@ func main() {
 		File  string   `json:"file,omitempty"`
 	}
 	var reports []rep
-	var out []string
-	out = append(out, "import Gengo.Model.GoRt", "/-! REGENERATED by harness/cmd/go2lean from the Go sources of the checkout under test — do not edit.",
-		"Every definition is the translation of one Go function (named in its doc comment); `Gengo/Props/Tr*.lean` proves it",
-		"equal to the hand-written model. -/", "namespace Gengo.Code", "open Gengo Gengo.Go", "set_option linter.unusedVariables false", "")
+	header := func(group string) []string {
+		return []string{"import Gengo.Model.GoRt", "/-! REGENERATED by harness/cmd/go2lean from the Go sources of the checkout under test — do not edit.",
+			"Group " + group + ": every definition is the translation of one Go function (named in its doc comment);",
+			"`Gengo/Props/Tr*.lean` proves it equal to the hand-written model. -/", "namespace Gengo.Code", "open Gengo Gengo.Go", "set_option linter.unusedVariables false", ""}
+	}
+	groups := map[string][]string{}
+	var order []string
 	for i := range cfg.Targets {
 		t := cfg.Targets[i]
+		if t.Group == "" {
+			t.Group = "Misc"
+		}
+		if _, ok := groups[t.Group]; !ok {
+			groups[t.Group] = header(t.Group)
+			order = append(order, t.Group)
+		}
+		out := groups[t.Group]
 		r := rep{Func: t.Pkg + "." + t.Func, Lean: leanName(&t), Props: t.Props}
 		func() {
 			defer func() {
@@ -1785,14 +1798,33 @@ func main() {
 		if !r.OK {
 			out = append(out, fmt.Sprintf("/- NOT TRANSLATED: %s — %s -/", r.Func, strings.ReplaceAll(r.Error, "-/", "- /")), "")
 		}
+		groups[t.Group] = out
 		reports = append(reports, r)
 	}
-	out = append(out, "end Gengo.Code")
-	text := strings.Join(out, "\n") + "\n"
-	if old, err := os.ReadFile(os.Args[3]); err != nil || string(old) != text {
-		if err := os.WriteFile(os.Args[3], []byte(text), 0o644); err != nil {
-			fmt.Fprintln(os.Stderr, "go2lean:", err)
-			os.Exit(2)
+	writeIfChanged := func(path, text string) {
+		if old, err := os.ReadFile(path); err != nil || string(old) != text {
+			if err := os.WriteFile(path, []byte(text), 0o644); err != nil {
+				fmt.Fprintln(os.Stderr, "go2lean:", err)
+				os.Exit(2)
+			}
+		}
+	}
+	codeDir := filepath.Join(os.Args[3], "Code")
+	os.MkdirAll(codeDir, 0o755)
+	keep := map[string]bool{}
+	all2 := []string{"/-! REGENERATED by harness/cmd/go2lean — every group of translated functions -/"}
+	var imports []string
+	for _, g := range order {
+		writeIfChanged(filepath.Join(codeDir, g+".lean"), strings.Join(append(groups[g], "end Gengo.Code"), "\n")+"\n")
+		keep[g+".lean"] = true
+		imports = append(imports, "import Gengo.Gen.Code."+g)
+	}
+	writeIfChanged(filepath.Join(os.Args[3], "Code.lean"), strings.Join(append(imports, all2...), "\n")+"\n")
+	if es, err := os.ReadDir(codeDir); err == nil {
+		for _, e := range es {
+			if !keep[e.Name()] {
+				os.Remove(filepath.Join(codeDir, e.Name()))
+			}
 		}
 	}
 	rb, _ := json.MarshalIndent(reports, "", " ")
